@@ -278,20 +278,28 @@ def validate_records(ctx, module, cfg, path, props, describe, wd, drift=False, m
     import re as _re
     remaining = path
     total = len(read_ndjson(path))
-    for attempt in range(max_reports + 3):
+    for attempt in range(max_reports + 40):
         r = tlc(module, cfg, workers=1, timeout=timeout, env={"VERIF_TRACE": remaining}, keep_out=True)
         if r.violated in props:
             m = _re.findall(r"/\\ l = (\d+)", r.trace[-1] if r.trace else "")
             line = int(m[-1]) - 1 if m else 1
             cur = read_ndjson(remaining)
             rec = cur[line - 1]
-            text, sig = describe(rec, r.violated)
+            d = describe(rec, r.violated)
+            rest = cur[:line - 1] + cur[line:]      # drop only the offending record: the monitor's state stays consistent
+            if d is None:      # not this check's business: keep scanning
+                if not rest:
+                    return
+                remaining = os.path.join(wd, "rest_%s_%d.ndjson" % (cfg, attempt))
+                write_ndjson(remaining, rest)
+                continue
+            text, sig = d
             if drift:
                 ctx.drift.append(text)
             else:
                 rp = ctx.save_replay("rec_%s_%d.json" % (r.violated, attempt), rec)
                 ctx.report(text, rp, sig)
-            rest = cur[line:]
+            rest = cur[:line - 1] + cur[line:]      # drop only the offending record: the monitor's state stays consistent
             if not rest or (drift and len(ctx.drift) >= max_reports) or (not drift and len(ctx.violations) >= max_reports):
                 return
             remaining = os.path.join(wd, "rest_%s_%d.ndjson" % (cfg, attempt))
